@@ -43,6 +43,17 @@ func engineType(t types.Type) bool {
 	return false
 }
 
+// sharedTemplateMethod: a base template is shared by the goroutines that render through it (C09: "a single
+// base template may be used from any number of goroutines"): its render methods must not write to it.
+// The configuration methods (Fill, Assign, Load, New) are not concurrent entry points on one template.
+func sharedTemplateMethod(fn *ssa.Function) bool {
+	if len(fn.Params) == 0 || typeShort(fn.Params[0].Type()) != "*vuego.template" {
+		return false
+	}
+	n := rootFunc(fn).Name()
+	return strings.HasPrefix(n, "Render") || strings.HasPrefix(n, "render") || n == "layout" || n == "Get"
+}
+
 func hasNodeType(t types.Type, depth int) bool {
 	if depth > 4 {
 		return false
@@ -99,7 +110,7 @@ func init() {
 	})
 
 	register(&Rule{
-		ID: "C09.R2", Props: []string{"C09", "C10", "C16", "C05", "C15"}, Min: 4,
+		ID: "C09.R2", Props: []string{"C09", "C10", "C16", "C05", "C15", "C04"}, Min: 4,
 		Doc: "shared parsed templates are read-only: values loaded from long-lived storage of DOM nodes / cached front-matter (cache entry fields, package-level node caches), and freshly parsed DOM from the point where it is published into that storage, are never written through — not by a field/element store, a map update, a mutating x/net/html method, nor inside any module function they are passed to; only private deep copies are modified",
 		Run: func(p *Prog, c *Ctx) {
 			t := newROTaint(p)
@@ -345,7 +356,7 @@ func init() {
 					desc := ""
 					if strings.HasPrefix(root, "global:") {
 						shared, desc = true, "package-level "+path
-					} else if root == "param0" && len(fn.Params) > 0 && engineType(fn.Params[0].Type()) && path != "param0" {
+					} else if root == "param0" && len(fn.Params) > 0 && (engineType(fn.Params[0].Type()) || sharedTemplateMethod(fn)) && path != "param0" {
 						shared, desc = true, typeShort(fn.Params[0].Type())+strings.TrimPrefix(path, "param0")
 					} else if strings.HasPrefix(path, "param0.vue.") || strings.HasPrefix(path, "param0.loader.") || strings.HasPrefix(path, "param0.exprEval.") {
 						shared, desc = true, "engine state "+path
